@@ -57,7 +57,7 @@ CONTRACTS.append(Contract(
         ('effects-appended', log_prefix(c.gold('eff'), c.gnew('eff'))),
         ('no-callback', c.gnew('ncalls') == c.gold('ncalls'))])],
     modifies=lambda c: [(BK, c.self), ('FileBackups._next_backup_index', c.self), 'g:fs_kind',
-                        'g:eff', 'g:fs_epoch'],
+                        'g:eff', 'g:fs_epoch', 'g:vstate'],
     notes='os.rename(filename, <fresh path in the backup directory>); FileNotFoundError -> False'))
 
 CONTRACTS.append(Contract(
@@ -67,6 +67,6 @@ CONTRACTS.append(Contract(
         ('list-emptied', z3.Length(c.new(BK, c.self)) == 0),
         ('effects-appended', log_prefix(c.gold('eff'), c.gnew('eff'))),
         ('no-callback', c.gnew('ncalls') == c.gold('ncalls'))],
-    modifies=lambda c: [(BK, c.self), 'g:fs_kind', 'g:eff', 'g:fs_epoch'],
+    modifies=lambda c: [(BK, c.self), 'g:fs_kind', 'g:eff', 'g:fs_epoch', 'g:vstate'],
     notes='never raises; for each (path, backup) in order: skipped if path is a directory, '
           'else makedirs(parent) and os.replace(backup, path)'))
